@@ -10,6 +10,7 @@ import Driver.InvOps
 import Driver.ShellOps
 import Driver.RenderOps
 import Driver.LedgerOps
+import Driver.SummOps
 namespace Bql
 
 def showDesc (d : List (String × Ty)) : String :=
@@ -68,6 +69,7 @@ def handle (st : DState) (sx : Sexp) : DState × String :=
   | .list (.atom "shellscript" :: _) => (st, (handleShell sx).getD "bad-op")
   | .list (.atom "render" :: _) => (st, (handleRender sx).getD "bad-op")
   | .list (.atom "tablerows" :: _) => (st, (handleLedger sx).getD "bad-op")
+  | .list (.atom "prepare" :: _) => (st, (handleSumm sx).getD "bad-op")
   | .list (.atom "numberify" :: _) => (st, (handleNumberify sx).getD "bad-op")
   | .list (.atom "cursor" :: _) => (st, (handleCursor sx).getD "bad-op")
   | .list [.atom "modelled-functions"] => (st, " ".intercalate modelledFunctions)
